@@ -17,7 +17,7 @@ Lemma parse_proto_post fx s f proto :
   wf s -> (0 < f_offP f)%nat -> offs_ok (len s) f -> post (offs_ok (len s)) (parse_proto fx s f proto).
 Proof.
   intros Hwf H0 Hf. assert (H1 : (f_offP f <= len s)%nat) by (unfold offs_ok in Hf; lia).
-  unfold parse_proto.
+  rewrite parse_proto_chain_eq. unfold parse_proto_chain.
   repeat match goal with |- context [if ?c then _ else _] => destruct c end;
   try (leaf; fail);
   (rewrite payload_view_pos by (cbn; lia)); cbn [bind];
@@ -78,7 +78,7 @@ Qed.
 
 Theorem parse_offsets c s : wf s -> post (offs_ok (len s)) (parse c s).
 Proof.
-  intros Hwf. unfold parse, ether_is_valid.
+  intros Hwf. rewrite parse_chain_eq. unfold parse_chain, ether_is_valid.
   destruct (Nat.leb_spec 14 (len s)) as [Hlen|Hlen]; cbn [bind]; [|leaf].
   unfold ether_src, ether_dst, bytes_at.
   repeat (rd; cbn [bind]).
